@@ -7,9 +7,9 @@ package main
 // construct with a wrong detail); an unrecognised shape is UNDECIDED.
 
 import (
+	"fmt"
 	"go/constant"
 	"go/token"
-	"fmt"
 	"regexp"
 	"sort"
 	"strings"
